@@ -126,14 +126,14 @@ TestResult(k) ==
   /\ LET f == Top  n == f.node  c == f.ctx
          t == n.tests[f.i]
          v == IF k = "struct" THEN 0 ELSE dest[f.dp]
-         r1 == IF Pass(t, v) THEN Cur ELSE AddIssue(Cur, c, TIss(f.ip, t, DType(n)))
+         r1 == IF PassN(n, t, v) THEN Cur ELSE AddIssue(Cur, c, TIss(f.ip, t, DType(n)))
          exit == r1.ctxs[c].exit
      IN Commit(
           IF k \in {"prim"} /\ exit /\ r1.ctxs[c].canCatch
           THEN WithTop(SetDest(r1, f.dp, n.catch), [f EXCEPT !.pc = "ptgate", !.soft = TRUE])
           ELSE IF k \in {"struct", "slice"} /\ exit
           THEN WithTop(r1, [f EXCEPT !.pc = "ptgate"])
-          ELSE IF ~SwRunAllTests /\ ~Pass(t, v)
+          ELSE IF ~SwRunAllTests /\ ~PassN(n, t, v)
           THEN WithTop(r1, [f EXCEPT !.pc = "ptgate"])
           ELSE WithTop(r1, [f EXCEPT !.pc = "tests", !.i = f.i + 1]))
 
@@ -313,7 +313,7 @@ Next ==
 
 \* the state a call starts in
 InitDestOf(c) ==
-  IF c.mode = "parse" THEN (IF c.pre = 1 THEN InitDestPre(c.schema, <<>>) ELSE InitDest(c.schema, <<>>))
+  IF c.mode = "parse" THEN (IF c.pre = 1 THEN InitDestPre(c.schema, <<>>) ELSE IF c.pre = 2 THEN InitDestUsed(c.schema, <<>>) ELSE InitDest(c.schema, <<>>))
   ELSE Flatten(c.schema, c.input, <<>>)
 
 StartOf(c) ==
